@@ -733,6 +733,14 @@ func (e *entry) accepts(w *World, r *respInfo, single bool) (bool, *Verdict) {
 			return r.hasError && r.code == "-32603", nil
 		case "both":
 			return r.hasError && r.code == "7" && !r.hasResult, nil
+		case "zeroint":
+			return r.hasResult && r.result.K == '#' && r.result.S == "0", nil
+		case "emptystr":
+			return r.hasResult && r.result.K == 's' && r.result.S == "", nil
+		case "falseres":
+			return r.hasResult && r.result.K == 'f', nil
+		case "failzero":
+			return r.hasError && r.code == "0" && r.message == "" && r.data != nil && r.data.K == '#' && r.data.S == "0", nil
 		}
 	}
 	return false, nil
